@@ -1,5 +1,453 @@
-use crate::check::Violation;
-use crate::driver::WorkerError;
+//! C14 — evaluation is deterministic and thread-safe (DESIGN 4.1).
+//!
+//! Every fault-free Compile / Run observed anywhere (any node, any position in any history, any
+//! interleaving, any hash seed, any address-space layout, shared or cloned program, fresh or cleared
+//! runtime) must equal the golden outcome of the same (source, event, tz, clock) computed in a fresh
+//! single-threaded process in which nothing else ran.
+
+use std::collections::BTreeMap;
+
+use crate::check::*;
+use crate::corpus::{self, Case};
+use crate::driver::{self, WorkerError};
+use crate::judge::{died_pub, prog_desc};
+use crate::prng::{fnv, mix, Rng};
+use crate::sched::Policy;
 use crate::spec::*;
+
 type Res = Result<SessionResult, WorkerError>;
-pub fn judge(_s: &SessionSpec, _r: &Res, _rs: Option<&SessionSpec>, _rr: Option<&Res>) -> Result<Vec<Violation>, String> { Ok(vec![]) }
+
+pub const T0: i64 = 1_700_000_000;
+
+fn run_key(s: &SessionSpec, w: &WorldSpec, node: &NodeSpec, prog: usize, event: usize) -> String {
+    format!(
+        "run|{}|{:?}|{}|tz={}|tzenv={:?}|clock={:?}",
+        w.programs[prog].source,
+        w.programs[prog].read_only,
+        serde_json::to_string(&w.events[event]).unwrap(),
+        node.tz,
+        s.tz_env,
+        w.clock
+    )
+}
+
+fn compile_key(w: &WorldSpec, prog: usize) -> String {
+    format!("compile|{}|{:?}", w.programs[prog].source, w.programs[prog].read_only)
+}
+
+struct Seen {
+    outcome: String,
+    ops: Vec<String>,
+    context: String,
+}
+
+fn context(s: &SessionSpec, wi: usize, w: &WorldSpec, node: Option<(usize, &NodeSpec)>, op: usize, golden: bool) -> String {
+    let n = match node {
+        Some((i, n)) => format!("node {i} op {op} (hash_seed {}, {}, {})", n.hash_seed, if n.own_clone { "own clone" } else { "shared Arc" }, if n.ref_backing { "TargetValueRef" } else { "TargetValue" }),
+        None => format!("precompilation on the coordinator (hash_seed {})", w.coord_hash_seed),
+    };
+    format!(
+        "{}world {} (#{wi} of {} in its session, {} nodes, {:?}, layout_salt {}) {n}",
+        if golden { "GOLDEN " } else { "" },
+        w.id,
+        s.worlds.len(),
+        w.nodes.len(),
+        w.sched.policy,
+        s.layout_salt
+    )
+}
+
+/// Walk all fault-free compile/run observations of a session in execution-independent order.
+fn walk<F: FnMut(String, &str, &[String], String, usize, &WorldSpec)>(s: &SessionSpec, r: &SessionResult, golden: bool, mut f: F) {
+    for (wi, (w, wr)) in s.worlds.iter().zip(r.worlds.iter()).enumerate() {
+        for (pi, pre) in wr.precompiled.iter().enumerate() {
+            if let Some(out) = pre {
+                f(compile_key(w, pi), out, &[], context(s, wi, w, None, 0, golden), pi, w);
+            }
+        }
+        for o in &wr.obs {
+            let Some(node) = w.nodes.get(o.node) else { continue };
+            match node.ops.get(o.op) {
+                Some(Op::Compile { prog }) if o.kind == "compile" => {
+                    f(compile_key(w, *prog), &o.outcome, &[], context(s, wi, w, Some((o.node, node)), o.op, golden), *prog, w);
+                }
+                Some(Op::Run { prog, event, faults, .. }) if o.kind == "run" && faults.is_empty() => {
+                    f(run_key(s, w, node, *prog, *event), &o.outcome, &o.target_ops, context(s, wi, w, Some((o.node, node)), o.op, golden), *prog, w);
+                }
+                _ => {}
+            }
+        }
+    }
+}
+
+pub fn judge(session: &SessionSpec, res: &Res, reference: &[SessionSpec], ref_res: &[Res]) -> Result<Vec<Violation>, String> {
+    let mut table: BTreeMap<String, Seen> = BTreeMap::new();
+    for (rs, rr) in reference.iter().zip(ref_res.iter()) {
+        match rr {
+            Ok(rr) => walk(rs, rr, true, |key, out, ops, ctx, _, _| {
+                table.entry(key).or_insert(Seen { outcome: out.to_string(), ops: ops.to_vec(), context: ctx });
+            }),
+            // a golden that cannot be computed (its process dies even alone) gives no expectation
+            Err(_) => {}
+        }
+    }
+    let res = match res {
+        Ok(r) => r,
+        Err(e) => return died_pub("C14", e, session, true),
+    };
+    let mut out = vec![];
+    for (w, wr) in session.worlds.iter().zip(res.worlds.iter()) {
+        for h in &wr.monitor_hits {
+            if h.monitor == "residue" || h.monitor == "stuck" {
+                out.push(Violation {
+                    property: "C14".into(),
+                    class: if h.monitor == "residue" { "runtime-residue-after-clear".into() } else { "stuck".into() },
+                    at: format!("world {} node {} op {}", w.id, h.node, h.op),
+                    program: (0..w.programs.len()).map(|i| prog_desc(w, i)).collect::<Vec<_>>().join("\n---\n"),
+                    observed: h.what.clone(),
+                    expected: "Runtime::is_empty() after clear(); every node reaches its next yield point".into(),
+                    note: String::new(),
+                });
+            }
+        }
+    }
+    walk(session, res, false, |key, outcome, ops, ctx, prog, w| {
+        match table.get(&key) {
+            None => {
+                table.insert(key, Seen { outcome: outcome.to_string(), ops: ops.to_vec(), context: ctx });
+            }
+            Some(seen) => {
+                if seen.outcome != outcome || (!key.starts_with("compile|") && seen.ops != ops) {
+                    let is_compile = key.starts_with("compile|");
+                    let (o, e) = if seen.outcome != outcome {
+                        first_difference(outcome, &seen.outcome)
+                    } else {
+                        (format!("target operations {ops:?}"), format!("target operations {:?}", seen.ops))
+                    };
+                    out.push(Violation {
+                        property: "C14".into(),
+                        class: if is_compile { "nondeterministic-compile".into() } else { "nondeterministic-run".into() },
+                        at: ctx.clone(),
+                        program: prog_desc(w, prog),
+                        observed: o,
+                        expected: e,
+                        note: format!("differs from: {}", seen.context),
+                    });
+                }
+            }
+        }
+    });
+    Ok(out)
+}
+
+/// Show the region around the first differing line.
+fn first_difference(a: &str, b: &str) -> (String, String) {
+    let la: Vec<&str> = a.lines().collect();
+    let lb: Vec<&str> = b.lines().collect();
+    let i = la.iter().zip(lb.iter()).position(|(x, y)| x != y).unwrap_or(la.len().min(lb.len()));
+    let lo = i.saturating_sub(1);
+    let pick = |l: &Vec<&str>| l.iter().skip(lo).take(4).copied().collect::<Vec<_>>().join("\n");
+    (pick(&la), pick(&lb))
+}
+
+// ---------------------------------------------------------------------------------------------
+
+#[derive(Clone)]
+pub struct Item {
+    pub case: Case,
+    /// own event first, then extra events
+    pub events: Vec<EventSpec>,
+}
+
+pub fn items(include_b: bool) -> Vec<Item> {
+    let mut cases = corpus::corpus_a();
+    if include_b {
+        cases.extend(corpus::corpus_b());
+    }
+    cases.extend(corpus::corpus_c());
+    let mut out: Vec<Item> = vec![];
+    // debugging aid: VERIF_ONLY=<label prefix> restricts the workload (never set by registered commands)
+    let only = std::env::var("VERIF_ONLY").ok();
+    for c in cases {
+        if !c.comparable() {
+            continue;
+        }
+        if only.as_ref().is_some_and(|o| !c.label.starts_with(o.as_str())) {
+            continue;
+        }
+        // C15-only shapes carry read-only sets that reject nothing interesting here; keep them, they are cheap
+        let mut events = vec![c.event.clone()];
+        events.extend(corpus::extra_events(&c));
+        out.push(Item { case: c, events });
+    }
+    out
+}
+
+pub fn golden_session(item: &Item, ev: usize) -> SessionSpec {
+    let mut p = item.case.program.clone();
+    p.precompile = false;
+    SessionSpec {
+        seed: 0,
+        tz_env: None,
+        layout_salt: 0,
+        worlds: vec![WorldSpec {
+            id: "golden".into(),
+            clock: Some(T0),
+            coord_hash_seed: 0,
+            programs: vec![p],
+            events: vec![item.events[ev].clone()],
+            nodes: vec![NodeSpec {
+                tz: "UTC".into(),
+                hash_seed: 0,
+                own_clone: false,
+                ref_backing: false,
+                ops: vec![Op::Compile { prog: 0 }, Op::Run { prog: 0, event: 0, fresh_runtime: true, faults: FaultPlan::default(), tag: "golden".into() }],
+            }],
+            sched: SchedSpec { policy: Policy::Serial, seed: 0, max_yields: 1_000_000 },
+            files: vec![],
+            monitors: vec![],
+            fresh_threads: true,
+        }],
+    }
+}
+
+pub struct Goldens {
+    /// (item, event) -> index into specs/results
+    pub index: BTreeMap<(usize, usize), usize>,
+    pub specs: Vec<SessionSpec>,
+    pub results: Vec<Res>,
+}
+
+pub fn compute_goldens(ctx: &Ctx, items: &[Item], ev: &mut Evidence) -> Goldens {
+    let mut index = BTreeMap::new();
+    let mut specs = vec![];
+    for (i, it) in items.iter().enumerate() {
+        for e in 0..it.events.len() {
+            index.insert((i, e), specs.len());
+            specs.push(golden_session(it, e));
+        }
+    }
+    let results = driver::run_all(&specs, ctx.par, ctx.session_timeout, |_, _| {});
+    ev.sessions += specs.len() as u64;
+    let died = results.iter().filter(|r| r.is_err()).count();
+    ev.extra.insert("golden_sessions".into(), (specs.len() as u64).into());
+    ev.extra.insert("golden_sessions_whose_process_died".into(), (died as u64).into());
+    Goldens { index, specs, results }
+}
+
+fn refs_for(g: &Goldens, used: &[(usize, usize)]) -> (Vec<SessionSpec>, Vec<Res>) {
+    let mut specs = vec![];
+    let mut results = vec![];
+    let mut seen = std::collections::BTreeSet::new();
+    for u in used {
+        if let Some(ix) = g.index.get(u) {
+            if seen.insert(*ix) {
+                specs.push(g.specs[*ix].clone());
+                results.push(g.results[*ix].clone());
+            }
+        }
+    }
+    (specs, results)
+}
+
+/// Judge a batch of sessions against the goldens of the (item, event) pairs each uses.
+fn judge_batch(ctx: &Ctx, sessions: &[SessionSpec], used: &[Vec<(usize, usize)>], g: &Goldens, rep: &mut Reporter, ev: &mut Evidence) -> Vec<Option<SessionResult>> {
+    let results = driver::run_all(sessions, ctx.par, ctx.session_timeout, |_, _| {});
+    let mut out = vec![];
+    for ((spec, res), used) in sessions.iter().zip(results.into_iter()).zip(used.iter()) {
+        ev.sessions += 1;
+        match &res {
+            Ok(r) => {
+                for w in &r.worlds {
+                    ev.absorb_world(w);
+                }
+            }
+            Err(_) => ev.worker_errors += 1,
+        }
+        let (rs, rr) = refs_for(g, used);
+        match judge(spec, &res, &rs, &rr) {
+            Ok(vs) => {
+                for v in vs {
+                    // history matters for C14: keep the whole session; the minimiser drops worlds first
+                    rep.candidate(v, "c14", spec.clone(), rs.clone());
+                }
+            }
+            Err(e) => {
+                eprintln!("HARNESS: {e}");
+                ev.worker_errors += 1;
+            }
+        }
+        out.push(res.ok());
+    }
+    out
+}
+
+pub fn run(ctx: &Ctx) -> ! {
+    let mut ev = Evidence::default();
+    let mut rep = Reporter::new(ctx);
+    let items = items(true);
+    ev.extra.insert("corpus_cases_comparable".into(), (items.len() as u64).into());
+    let g = compute_goldens(ctx, &items, &mut ev);
+    println!("goldens: {} sessions ({:.1}s)", g.specs.len(), ctx.start.elapsed().as_secs_f64());
+
+    // --- part 1: hash-seed / layout sweep: S fresh one-world sessions per (case, event) ------------
+    // plain cases get a few seeds; hash-order amplifiers (corpus C, tag "hash") get many
+    let (s_plain, s_hash) = if ctx.quick() { (2, 16) } else { (12, 96) };
+    let mut rng = Rng::new(mix(ctx.seed, 0xC14));
+    let mut sessions = vec![];
+    let mut used = vec![];
+    for (i, it) in items.iter().enumerate() {
+        for e in 0..it.events.len() {
+            let s_sweep = if it.case.tags.iter().any(|t| t == "hash") { s_hash } else { s_plain };
+            for k in 0..s_sweep {
+                let mut s = golden_session(it, e);
+                s.seed = ctx.seed;
+                s.layout_salt = (rng.next_u64() % 4096) as u32;
+                let w = &mut s.worlds[0];
+                w.id = format!("sweep-{i}-{e}-{k}");
+                w.coord_hash_seed = rng.next_u64();
+                w.nodes[0].hash_seed = rng.next_u64();
+                w.nodes[0].ref_backing = k % 2 == 1;
+                // half of the sweep compiles on the coordinator (precompile) instead of on the node
+                if k % 3 == 0 {
+                    w.programs[0].precompile = true;
+                    w.nodes[0].ops.remove(0);
+                }
+                sessions.push(s);
+                used.push(vec![(i, e)]);
+            }
+        }
+    }
+    let sweep_sessions = sessions.len();
+    let _ = judge_batch(ctx, &sessions, &used, &g, &mut rep, &mut ev);
+    ev.extra.insert("hash_sweep".into(), serde_json::json!({"seeds_per_plain_case": s_plain, "seeds_per_hash_amplifier_case": s_hash, "sessions": sweep_sessions}));
+    println!("hash sweep: {} sessions ({:.1}s)", sweep_sessions, ctx.start.elapsed().as_secs_f64());
+
+    // --- part 2: concurrent / history worlds --------------------------------------------------------
+    let n_sessions = if ctx.quick() { 1_600 } else { 40_000 };
+    let max_nodes = if ctx.quick() { 4 } else { 8 };
+    let max_worlds = if ctx.quick() { 6 } else { 24 };
+    // items that touch process-global state or shared pools get extra weight
+    let hot: Vec<usize> = items.iter().enumerate().filter(|(_, it)| it.case.tags.iter().any(|t| t == "global" || t == "hash" || t == "early")).map(|(i, _)| i).collect();
+    let mut samples = vec![];
+    let mut done = 0;
+    let mut batch_no = 0;
+    while done < n_sessions && !ctx.out_of_time() {
+        let chunk = (n_sessions - done).min(800);
+        let mut sessions = vec![];
+        let mut used = vec![];
+        for j in 0..chunk {
+            let mut r = rng.derive((batch_no * 1_000_003 + j) as u64);
+            let (s, u) = gen_session(&mut r, ctx.seed, &items, &hot, max_nodes, max_worlds, format!("b{batch_no}s{j}"));
+            sessions.push(s);
+            used.push(u);
+        }
+        let results = judge_batch(ctx, &sessions, &used, &g, &mut rep, &mut ev);
+        for (s, r) in sessions.iter().zip(results.iter()) {
+            let Some(r) = r else { continue };
+            for (w, wr) in s.worlds.iter().zip(r.worlds.iter()) {
+                ev.evaluations += 1;
+                if wr.sched.switches_inside_runs > 0 {
+                    let fresh = ev.distinct.insert(wr.sched.interleaving_digest ^ fnv(w.programs.iter().map(|p| p.source.as_str()).collect::<Vec<_>>().join("|").as_bytes()));
+                    if fresh && samples.len() < 3 && wr.sched.switches_same_program > 0 && ev.distinct.len() % 101 == 1 {
+                        samples.push(serde_json::json!({
+                            "world": w.id, "programs": w.programs.iter().map(|p| p.label.clone()).collect::<Vec<_>>(),
+                            "nodes": w.nodes.iter().map(|n| serde_json::json!({"hash_seed": n.hash_seed, "own_clone": n.own_clone, "ops": n.ops.iter().map(|o| serde_json::to_value(o).unwrap()).collect::<Vec<_>>() })).collect::<Vec<_>>(),
+                            "policy": w.sched.policy, "switches": wr.sched.switches.len(), "switches_inside_runs_of_same_program": wr.sched.switches_same_program, "yields": wr.sched.yields,
+                        }));
+                    }
+                }
+            }
+        }
+        done += chunk;
+        batch_no += 1;
+    }
+    ev.extra.insert("concurrent_history_sessions".into(), (done as u64).into());
+    ev.evaluations += sweep_sessions as u64;
+    ev.samples = samples;
+    ev.rule = "evaluations = hash/layout-sweep sessions (one fresh process per (case, event, hash seed)) + concurrent/history worlds executed. Worlds: 1..N caller threads share Arc<Program>s (or hold clones), run corpus programs on their events with fresh or cleared runtimes, compile / clone / drop programs in between, under seeded schedules (random p in {0.02,0.1,0.3,0.7}, PCT d<=3, serial permutation); several worlds follow each other in one process so that process-global residue is part of the history. Oracle: every fault-free Compile/Run observation equals the golden outcome of the same (source, event, tz, clock) computed alone in a fresh process, and all observations with the same key agree with each other. distinct_nontrivial = distinct (programs, interleaving digest) pairs of worlds with at least one context switch while two nodes were inside a Run.".into();
+    ev.assumptions = vec![
+        "code between two yield points (Expr::resolve, Target calls, the schema-cache miss window) runs atomically: a data race wholly inside one stdlib function or dependency is invisible to this technique".into(),
+        "getrandom(2) interposition + ASLR off make hash iteration orders a function of the seed; raw SYS_getrandom users (getrandom 0.2: only the exempt network functions) are not controlled".into(),
+        "programs mentioning exempt functions (now, random_*, uuid_v4/v7, get_hostname, get_env_var, network lookups, get_timezone_name) and examples flagged non-deterministic are excluded from the oracle".into(),
+    ];
+    let verdict = rep.finish(ctx);
+    ev.write(ctx, "exploration", verdict.violations, &verdict.known_seen);
+    exit_with(&verdict)
+}
+
+fn pick_item(r: &mut Rng, items: &[Item], hot: &[usize]) -> usize {
+    if !hot.is_empty() && r.chance(0.35) { hot[r.below(hot.len())] } else { r.below(items.len()) }
+}
+
+pub fn gen_session(r: &mut Rng, seed: u64, items: &[Item], hot: &[usize], max_nodes: usize, max_worlds: usize, id: String) -> (SessionSpec, Vec<(usize, usize)>) {
+    let n_worlds = r.range(1, max_worlds);
+    let mut worlds = vec![];
+    let mut used = vec![];
+    // a session tends to revisit a small pool of items so that history (global residue) has a chance to matter
+    let pool: Vec<usize> = (0..r.range(1, 4)).map(|_| pick_item(r, items, hot)).collect();
+    for wi in 0..n_worlds {
+        let n_nodes = r.range(1, max_nodes);
+        let n_progs = if r.chance(0.5) { 1 } else { r.range(1, 3) };
+        let mut prog_items = vec![];
+        for _ in 0..n_progs {
+            prog_items.push(if r.chance(0.7) { pool[r.below(pool.len())] } else { pick_item(r, items, hot) });
+        }
+        let mut programs = vec![];
+        let mut events = vec![];
+        let mut ev_index: Vec<Vec<usize>> = vec![];
+        for it in &prog_items {
+            let mut p = items[*it].case.program.clone();
+            p.precompile = r.chance(0.8);
+            programs.push(p);
+            let mut ixs = vec![];
+            for (e, evs) in items[*it].events.iter().enumerate() {
+                ixs.push(events.len());
+                events.push(evs.clone());
+                used.push((*it, e));
+            }
+            ev_index.push(ixs);
+        }
+        let mut nodes = vec![];
+        for _ in 0..n_nodes {
+            let n_ops = r.range(2, 10);
+            let mut ops = vec![];
+            for _ in 0..n_ops {
+                let p = r.below(n_progs);
+                match r.below(20) {
+                    0..=11 => {
+                        let e = ev_index[p][r.below(ev_index[p].len())];
+                        let fresh = r.chance(0.4);
+                        if !fresh {
+                            ops.push(Op::Clear);
+                        }
+                        ops.push(Op::Run { prog: p, event: e, fresh_runtime: fresh, faults: FaultPlan::default(), tag: String::new() });
+                    }
+                    12..=14 => ops.push(Op::Compile { prog: p }),
+                    15..=16 => ops.push(Op::CloneProgram { prog: p }),
+                    17 => ops.push(Op::DropProgram { prog: p }),
+                    _ => ops.push(Op::Clear),
+                }
+            }
+            nodes.push(NodeSpec { tz: "UTC".into(), hash_seed: r.next_u64(), own_clone: r.chance(0.25), ref_backing: r.chance(0.5), ops });
+        }
+        let policy = match r.below(10) {
+            0..=5 => Policy::Random { p: *r.pick(&[0.02, 0.1, 0.3, 0.7]) },
+            6..=7 => Policy::Pct { d: r.range(1, 3) as u32, k: 400 },
+            _ => Policy::Serial,
+        };
+        worlds.push(WorldSpec {
+            id: format!("{id}w{wi}"),
+            clock: Some(T0),
+            coord_hash_seed: r.next_u64(),
+            programs,
+            events,
+            nodes,
+            sched: SchedSpec { policy, seed: r.next_u64(), max_yields: 50_000 },
+            files: vec![],
+            monitors: vec![],
+            fresh_threads: true,
+        });
+    }
+    (SessionSpec { seed, tz_env: None, layout_salt: (r.next_u64() % 4096) as u32, worlds }, used)
+}
